@@ -285,7 +285,10 @@ class Note(object):
         name = ""
         octave = 0
         for x in shorthand:
-            if x in ["a", "b", "c", "d", "e", "f", "g"]:
+            if x == "b" and name != "":
+                # a 'b' after the note letter is a flat, not the note B
+                name += x
+            elif x in ["a", "b", "c", "d", "e", "f", "g"]:
                 name = str.upper(x)
                 octave = 3
             elif x in ["A", "B", "C", "D", "E", "F", "G"]:
